@@ -348,6 +348,17 @@ def main(argv=None):
         seed = int(os.environ.get('VERIF_SEED', '0'))
     except ValueError:
         seed = 0
+    # last line of defence against an unbounded wait somewhere below (a lock, a peer that never answers): a
+    # run that is still going long after its tier deadline is stopped as a harness error instead of hanging
+    import signal as _signal
+
+    def _too_long(signum, frame):
+        raise HarnessError('run exceeded the hard wall-clock limit (tier deadline + 40 min); stopped')
+    try:
+        _signal.signal(_signal.SIGALRM, _too_long)
+        _signal.alarm(int(float(os.environ.get('VERIF_DEADLINE_S', 150 if tier == 'quick' else 1200)) + 2400))
+    except Exception:
+        pass
     slot = acquire_run_slot(tier if not replay_file else 'quick')
     ctx = Ctx(pid, tier, seed)
     mod = None
